@@ -75,12 +75,13 @@ Proof. split; [repeat constructor | split; vm_compute; reflexivity]. Qed.
     Full statement: whenever [ExcludeRealm r patterns] returns a realm, it is
     [strict_realm G r] (ExcludeSpec.v): a schema / table / column / index / foreign key / check
     is kept iff no chain of G = split patterns selects its path (with the [type=...]
-    selectors), and what is kept is unchanged and in order.  The faithful model refutes it,
-    twice (both reproduced on the real code by the tie, known findings
-    C19-exclude-cascade-dependent and C19-exclude-bad-pattern-swallowed):
-    1. pattern "s.t.c" also removes index i of column c, although "i" matches no pattern;
-    2. the malformed pattern "s.t.[" returns NO error and a table without columns and
-       indexes (excludeT overwrites the error of an earlier filter). *)
+    selectors), and what is kept is unchanged and in order.  The faithful model refutes it
+    (reproduced on the real code by the tie, known finding C19-exclude-cascade-dependent):
+    pattern "s.t.c" also removes index i of column c, although "i" matches no pattern.
+    (A second refutation -- the malformed pattern "s.t.[" returned NO error and a table
+    without columns and indexes, because excludeT overwrote the error of an earlier filter --
+    is gone with fix C19-exclude-bad-pattern, notes/fixes/; the model follows the repaired
+    code and [C19_exclude_bad_pattern_reported] is the former witness.) *)
 From Atlas Require Import Excl.ExcludeSpec Excl.ExcludeProofs.
 
 Definition exr_realm : realm :=
@@ -88,18 +89,11 @@ Definition exr_realm : realm :=
      [mkIndex [105]%N false [mkPart 0 false (Some [99]%N) None] None None None] [] []]].
 
 Theorem C19_exclude_exact_refuted :
-  (exists r pats G r', split pats = EOk G /\ ExcludeRealm (true, true) r pats = EOk r' /\ r' <> strict_realm G r)
-  /\ (exists r pats G r', split pats = EOk G /\ Match (glob_of [91]%N) [99]%N = Bad
-        /\ ExcludeRealm (true, true) r pats = EOk r' /\ strict_realm G r = r /\ r' <> r).
+  exists r pats G r', split pats = EOk G /\ ExcludeRealm (true, true) r pats = EOk r' /\ r' <> strict_realm G r.
 Proof.
-  split.
-  - exists exr_realm, [[115;46;116;46;99]%N], [[[115]%N; [116]%N; [99]%N]].
-    eexists. split; [vm_compute; reflexivity|]. split; [vm_compute; reflexivity|].
-    vm_compute. intros H. discriminate H.
-  - exists exr_realm, [[115;46;116;46;91]%N], [[[115]%N; [116]%N; [91]%N]].
-    eexists. split; [vm_compute; reflexivity|]. split; [vm_compute; reflexivity|].
-    split; [vm_compute; reflexivity|]. split; [vm_compute; reflexivity|].
-    vm_compute. intros H. discriminate H.
+  exists exr_realm, [[115;46;116;46;99]%N], [[[115]%N; [116]%N; [99]%N]].
+  eexists. split; [vm_compute; reflexivity|]. split; [vm_compute; reflexivity|].
+  vm_compute. intros H. discriminate H.
 Qed.
 Print Assumptions C19_exclude_exact_refuted.
 
@@ -122,6 +116,10 @@ Proof.
   - exact (ref_realm_nolink G r).
 Qed.
 Print Assumptions C19_exclude_exact_except.
+
+Example C19_exclude_bad_pattern_reported :   (* "s.t.[" on a table without CHECK: ErrBadPattern *)
+  ExcludeRealm (true, true) exr_realm [[115;46;116;46;91]%N] = EErr EBadPattern.
+Proof. vm_compute. reflexivity. Qed.
 
 Example C19_exclude_nonvacuous :
   ExcludeRealm (true, true) exr_realm [[115;46;116;46;99;91;116;121;112;101;61;99;111;108;117;109;110;93]%N]
